@@ -212,14 +212,17 @@ Section Bezier.
     end.
   Definition split_splines (l : list BV) : option (list (list V2)) := split (2 * length l + 2) l None [].
 
-  (* render: Sample every spline that is not a point; Drop() after all but the last *)
+  (* render: the splines that are a point are filtered out; Sample each remaining one;
+     Drop() after all but the last *)
   Definition is_point (s : Spline) : bool := Nat.eqb (bp_n (sp_x s)) 0 && Nat.eqb (bp_n (sp_y s)) 0.
+  Definition curves (ss : list Spline) : list Spline := filter (fun s => negb (is_point s)) ss.
+  Definition sample01 (s : Spline) (rs : list T) : list V2 * list T :=
+    sample max_depth s (o0 O) (o1 O) (sp_f0 s (o0 O)) (sp_f0 s (o1 O)) rs.
   Fixpoint render (ss : list Spline) (p : list V2) (rs : list T) : list V2 * list T :=
     match ss with
     | [] => (p, rs)
     | s :: r =>
-      if is_point s then render r p rs else
-      let '(vs, rs') := sample max_depth s (o0 O) (o1 O) (sp_f0 s (o0 O)) (sp_f0 s (o1 O)) rs in
+      let '(vs, rs') := sample01 s rs in
       let p' := p ++ vs in
       match r with
       | [] => (p', rs')
@@ -245,7 +248,7 @@ Section Bezier.
       | Some cps =>
         match all_some (map new_spline cps) with
         | None => Panic
-        | Some ss => Verts (fst (render ss [] rs))
+        | Some ss => Verts (fst (render (curves ss) [] rs))
         end
       end
     end.
